@@ -624,8 +624,22 @@ class Truncate(Family):
                 for v in [str(true + d) for d in (-3, -2, -1, 1, 2, 3)] + ['0', '-1', 'abc', '1_0', str(2 ** 70),
                                                                           str(true + 10 ** 6)]:
                     yield dict(kind='length', file=f, at=si, value=v)
+            # framing at block boundaries: a content header padded (with an unknown option) so that its line ends
+            # just before / at / after a 96-byte read-ahead block; the content must still be exactly `length` bytes
+            cands = [si for si, s in enumerate(f['sections']) if s['content'] is not None]
+            if cands:
+                si = cands[i % len(cands)]
+                base = len(gf.render_header(f['sections'][si]['id'], f['sections'][si]['opts'] + [['pad', 'x']], f['crlf']))
+                for target in (94, 95, 96, 97, 190, 191, 192, 193):
+                    k = target - base + 1
+                    if k >= 1:
+                        g = json.loads(json.dumps(f))
+                        g['sections'][si]['opts'].append(['pad', 'x' * k])
+                        yield dict(kind='frame', file=g)
 
     def _data(self, c):
+        if c['kind'] == 'frame':
+            return gf.render(c['file'])
         if c['kind'] == 'cut':
             return gf.render(c['file'])[:c['cut']]
         g = json.loads(json.dumps(c['file']))
@@ -680,6 +694,16 @@ class Truncate(Family):
         out = []
         if term[0] == 'exc':
             out.append(('C07', 'other-exception', 'reader raised %s' % term[1]))
+            return out
+        if c['kind'] == 'frame':
+            exp = gf.expected(c['file'])
+            if term[0] != 'end':
+                out.append(('C07', 'framing-differs', 'a well-formed file whose content header ends near a block boundary '
+                            'ended with %r' % (term[:2],)))
+            else:
+                d = compare_foreign(exp, records)
+                if d:
+                    out.append(('C07', 'framing-differs', d))
             return out
         intact = self._intact(c['file'])
         if c['kind'] == 'cut':
@@ -954,6 +978,17 @@ class HeaderFam(Family):
         for n in (4299, 4300, 4301):
             for pre in (b'', b'-', b'000'):
                 yield dict(kind='bigint', line=hx(b'#.change: a=' + pre + b'9' * n))
+        # repeated keys: EVERY pair must match the grammar, not only the one whose value survives (last one wins)
+        bads = [b'+', b'a:b', b'a=b', b'#', b'\xc3\xa9', b'a+b', b'1:0']
+        goods = [b'v', b'1', b'a/b']
+        for bad in bads:
+            for good in goods:
+                for key in (b'k', b'version', b'encoding'):
+                    yield dict(kind='dup-key', line=hx(b'#.change: ' + key + b'=' + bad + b', ' + key + b'=' + good))
+                    yield dict(kind='dup-key', line=hx(b'#.change: ' + key + b'=' + good + b', ' + key + b'=' + bad))
+                    yield dict(kind='dup-key', line=hx(b'#.change: a=1, ' + key + b'=' + bad + b', b=2, ' + key + b'=' + good))
+        for good in goods:
+            yield dict(kind='dup-key', line=hx(b'#.change: k=' + good + b', k=' + good + b', k=7'))
 
     def _impl(self, c):
         if '_impl' not in c:
